@@ -1025,7 +1025,9 @@ def observe_self(case):
             y = probe_values(e.out_structure(), rng)
             try:
                 fe, fT = mat_of(e)[1], mat_of(eT)[1]
-                obs['probe'] = [A.frac_json(A.to_frac(inner(fe(x), y))), A.frac_json(A.to_frac(inner(x, fT(y))))]
+                # (float32 FFT / overlap-save kernels are exact only to ~2e-5 relative on these probes: snap with the
+                # oracle's own tolerance 1e-4 - false alarm of the thorough sweep, K=4, n=6, fft_size=7)
+                obs['probe'] = [A.frac_json(A.to_frac(inner(fe(x), y), tol=1e-4)), A.frac_json(A.to_frac(inner(x, fT(y)), tol=1e-4))]
             except Exception as ex:
                 obs['probe'] = None
                 obs['probe_error'] = f'{type(ex).__name__}: {str(ex)[:200]}'
@@ -1466,7 +1468,7 @@ class Check(PropertyCheck):
                 x = probe_values(e.in_structure(), rng)
                 y = probe_values(e.out_structure(), rng)
                 try:
-                    obs['probe'] = [A.frac_json(A.to_frac(inner(e.mv(x), y))), A.frac_json(A.to_frac(inner(x, eT.mv(y))))]
+                    obs['probe'] = [A.frac_json(A.to_frac(inner(e.mv(x), y), tol=1e-4)), A.frac_json(A.to_frac(inner(x, eT.mv(y)), tol=1e-4))]
                 except Exception as ex:
                     obs['probe'] = None
                     obs['probe_error'] = f'{type(ex).__name__}: {str(ex)[:200]}'
